@@ -281,7 +281,7 @@ def check_base58(ctx, o=lambda k: "C07.%d" % k):
     R.check(o(4), "EXC", fi, "is_base58check's exception handler cannot itself raise", not hr,
             "is_base58check can raise from inside its except branch: %s" % (hr[0][1] if hr else ""), line=hr[0][0].lineno if hr else None,
             example="a rejected string that is not valid UTF-8, e.g. b'\\xff'")
-    ur = rules.unguarded_raisers(fi.node)
+    ur = rules.unguarded_raisers(fi.node, prog=ctx.prog, modname=fi.module.name)
     R.check(o(4), "EXC", fi, "nothing that can raise is evaluated outside is_base58check's catch-all", not ur,
             "is_base58check evaluates `%s` outside its try / except: on some input (the empty string, a non-bytes value) it raises instead of answering" % (ur[0][1] if ur else ""),
             line=ur[0][0].lineno if ur else None, example="the empty byte string")
